@@ -62,7 +62,8 @@ Definition mstep (gran uselock : bool) (s : mst) (i : nat) : mst :=
                                             mpc_ := match it with Some x => MEmit x | None => MCnt end; mkey := mkey t |} |}
         | None =>
             if gran then
-              {| cnt := cnt s; mm := mm s; mlock := uselock; gitems := gitems s; hist := hist s; emitted := emitted s;
+              (* the ghost history records the register call at its linearization point *)
+              {| cnt := cnt s; mm := mm s; mlock := uselock; gitems := gitems s; hist := hist s ++ [(k, mdir t, p)]; emitted := emitted s;
                  mthrs := mupd (mthrs s) i {| mcn := mcn t; mdir := mdir t; mdone := mdone t; mtodo := mtodo t;
                                               mpc_ := MStore; mkey := mkey t |} |}
             else
@@ -74,7 +75,7 @@ Definition mstep (gran uselock : bool) (s : mst) (i : nat) : mst :=
     | MStore, p :: rest =>
         let k := (mcn t, mkey t) in
         {| cnt := cnt s; mm := mset (mm s) k (Some (mdir t, p)); mlock := false; gitems := gitems s;
-           hist := hist s ++ [(k, mdir t, p)]; emitted := emitted s;
+           hist := hist s; emitted := emitted s;
            mthrs := mupd (mthrs s) i {| mcn := mcn t; mdir := mdir t; mdone := mdone t ++ [p]; mtodo := rest;
                                         mpc_ := MCnt; mkey := mkey t |} |}
     | MEmit it, _ =>
